@@ -394,6 +394,11 @@ impl GroupCommitQueue {
         self.state.lock().pending.len()
     }
 
+    #[cfg(turdb_verif)]
+    pub fn verif_flush_in_progress(&self) -> bool {
+        self.state.lock().flush_in_progress
+    }
+
     /// Force a flush of all pending commits (for testing or shutdown)
     pub fn force_flush(&self) -> Option<Vec<std::sync::Arc<PendingCommit>>> {
         self.take_pending()
